@@ -19,7 +19,8 @@ EXPLANATION = (
     "and requires exactly one store to the target on each; C13-R4 checks that the target dispatch is "
     "exhaustive and ends in raise; C13-R5 checks the slice -> slice(lower, upper, step) mapping; "
     "C13-R6 checks the index arithmetic of starred destructuring as linear forms; C13-R7 that a "
-    "walrus on a user name is only built inside the namespace classes."
+    "walrus on a user name is only built inside the namespace classes; C13-R8 the in-place method "
+    "is tried first on every path; C09-R1 instance: pattern/value temporaries are fresh per use."
 )
 ASSUMPTIONS = [
     "numeric results and CPython's type-slot lookup versus hasattr are run-time behaviour (not decided)",
